@@ -24,9 +24,10 @@ var orderMaps = map[string][]string{
 	"beyond53":  {"null", "false", "true", "-9007199254740993", "9007199254740992", "", "9007199254740993", "", "9007199254740994", `""`, `"a"`, `"ab"`, `"b"`},
 	"radix":     {"null", "false", "true", "-1", "0x1", "1.0", "0o2", "1.5", "0xA", `""`, `"a"`, `"ab"`, `"b"`},
 	"floats":    {"null", "false", "true", "-1.0", "1e0", "1", "2.0", "1.5", "1e1", `""`, `"a"`, `"ab"`, `"b"`},
+	"boolcase":  {"Null", "false", "True", "-1", "1", "1.0", "2", "1.5", "10", `""`, `"A"`, `"Ab"`, `"a"`}, // spelling order of the booleans contradicts their order
 	"unicode":   {"null", "false", "true", "-1", "1", "1.0", "2", "1.5", "10", `""`, `"é"`, `"é世"`, `"世"`},
 }
-var orderMapNames = []string{"canonical", "extremes", "beyond53", "radix", "floats", "unicode"}
+var orderMapNames = []string{"canonical", "extremes", "boolcase", "beyond53", "radix", "floats", "unicode"}
 
 func yamlSeq(items []string) string { return "[" + strings.Join(items, ", ") + "]\n" }
 
@@ -220,6 +221,9 @@ func checkC15(rc *Run) error {
 			}
 			if k == 1 {
 				name = "extremes"
+			}
+			if k == 2 {
+				name = "boolcase"
 			}
 			nm := name
 			jobsList = append(jobsList, func() { checkSeq(r, nm, false) })
